@@ -121,12 +121,13 @@ def run(ck, facts, tier):
         ck.check(r1, "try_new[%s]:empty" % base_name, has_err(lambda c: c == {empty: True}), "an empty quote list is not rejected first", where, sample="fx_rates.is_empty() -> Err")
         ck.check(r1, "try_new[%s]:underspecified" % base_name, has_err(lambda c: c.get(under) is under_p and c.get(empty) is False),
                  "n_currencies > n_quotes + 1 is not rejected (currencies = base + both sides of every quote)", where, detail=paths.fmt_paths(got)[:600], sample="q > n + 1 -> Err")
-        ck.check(r1, "try_new[%s]:overspecified" % base_name, has_err(lambda c: c.get(over) is over_p and c.get(under) is (not under_p)),
+        exact, exact_p = paths.lit(cel.cmp_sym("Eq", q, n + Poly.const(1), True))          # a three-way `match q.cmp(&(n + 1))` leaves `q == n + 1` on its Equal arm
+        ck.check(r1, "try_new[%s]:overspecified" % base_name, has_err(lambda c: c.get(over) is over_p and c.get(under) is not under_p),
                  "n_currencies < n_quotes + 1 is not rejected", where, sample="q < n + 1 -> Err")
         want_fx = Sym("create_fx_array", vkey(cur), vkey(RATES), vkey(Sym("ctor", "One")))
         okok = len(oks) == (1 if eq_form else 2)
         for c, v in oks:
-            okok = okok and c.get(empty) is False and c.get(under) is (not under_p) and c.get(over) is (not over_p) and \
+            okok = okok and c.get(empty) is False and ((c.get(under) is (not under_p) and c.get(over) is (not over_p)) or c.get(exact) is exact_p) and \
                 ((c.get(some_arm) is True and c.get(all_some) is True) or (c.get(some_arm) is False and c.get(all_none) is True) or (eq_form and c.get(all_eq) is True))
             x = v.tag[2] if len(v.tag) == 3 else None
             okok = okok and isinstance(x, Rec) and vkey(x.fields.get("fx_rates")) == vkey(RATES) and vkey(x.fields.get("currencies")) == vkey(cur) and \
